@@ -27,6 +27,11 @@ What the C rendering adds so that it means what the C3 text means without leanin
   * shift counts >= the width of the narrow type are discarded the same way (C would see a 32-bit shift);
   * C3's switch has no fall-through (test/samples/simple/switch_statement.c3/.out): every case ends in `break`;
   * bool is an int holding 0/1.
+
+Families (all deterministic lists, simplest first): E1 depth-1 operators per type; CAST / CASTCHAIN conversions; W mixed operand types;
+LIT literal operands; ASSOC unparenthesised chains; E2 / E2F / E2M / E3 depth-2 expressions; COND short-circuit conditions; S statement
+skeletons; A aggregates; X further statement forms; CONST constant expressions evaluated by the front end; MOD two modules.
+`c_driver` renders the translation unit (cases + table-driven driver) that gcc compiles; `parse_driver_output` reads its output.
 """
 import itertools
 
@@ -286,12 +291,17 @@ def c_expr(e):
             if op == "%" and signed(t):
                 # the quotient must exist in the narrow type (as INT_MIN % -1 is undefined in int)
                 return c_fit(t, "rem@(%s, %s, %d, %d)" % (l, r, trange(t)[0], trange(t)[1]))
+            if not signed(t):
+                # modular arithmetic: computed in unsigned so that C's promotion to (signed) int cannot overflow (65535 * 65535)
+                l = "(unsigned)" + l
+                if op not in ("<<", ">>"):
+                    r = "(unsigned)" + r
             return c_fit(t, "%s %s %s" % (l, op, r))
         return "(%s %s %s)" % (l, op, r)
     if k == "neg":
         t = e[2]
         if narrow(t):
-            return c_fit(t, "-%s" % c_expr(e[1]))
+            return c_fit(t, "-%s%s" % ("" if signed(t) else "(unsigned)", c_expr(e[1])))
         return "(-%s)" % c_expr(e[1])
     if k == "cmp":
         return "(%s %s %s)" % (c_expr(e[2]), e[1], c_expr(e[3]))
